@@ -172,6 +172,17 @@ def check(model, rep, tier):
     C01_frames.frames_clause(model, rep, funcs)
     from .C03 import batch_task_order_obligation
     batch_task_order_obligation(model, rep, "4 routing")
+    # "every loader kind": a batch aligns each molecule against the tomogram it was registered with (image-id registry, shared with C03), and the sub-volume
+    # handed to the model is sampled on the molecule's own grid for both window constructions (window algebra, shared with C02)
+    from .common import ClauseView
+    from . import C03 as _C03, C02 as _C02
+    try:
+        _C03.registry_clause(model, ClauseView(rep, "4 routing"), {_C03.BL + n_: model.func(_C03.BL + n_) for n_ in ("add_tomogram", "replace")})
+        f2_ = {a_: model.func(a_) for a_ in ("acryo/_utils.py::prepare_affine", "acryo/_utils.py::prepare_affine_cornersafe", "acryo/_utils.py::compose_matrices",
+                                           "acryo/_utils.py::make_slice_and_pad")}
+        _C02.window_clause(model, ClauseView(rep, "2 frames"), f2_)
+    except KeyError as e:
+        rep.error(f"anchor vanished: {e}")
     # the searched rotation set of a (max, step) range is what the user asked for (rule shared with C06)
     from .C06 import angle_grid_obligations
     try:
